@@ -19,7 +19,7 @@ CHECKS = {
    technique="TLA+ spec + TLC exhaustive MC of layered model vs. ghost; TLC trace validation of the real ledger"),
  "C12": dict(engine="StateLedger", design_ref="DESIGN.md §3.2, §5 C12",
    text="Same specification; C12_RollbackRestores / C12_Accepted / C12_Refused / C12_Version are checked by TLC on the model (rollback gate and database-at-head invariants) and on real traces that build chains crossing the 10-block journal window, roll back to every kind of target (inside, at the edge of, below the window, higher), continue differently and read everything back, with reopen in between.",
-   note="trusted: TLC, harness decoding; the combined Ledger.Rollback (state+chain) refusal clause is checked in the ChainLedger family",
+   note="trusted: TLC, harness decoding; the check runs the StateLedger family and then the ChainLedger family (C12_RefusedNoChange for the combined Ledger.Rollback: a refused rollback leaves the full audit and the chain meta unchanged)",
    technique="TLA+ spec + TLC exhaustive MC; TLC trace validation of the real ledger"),
  "C10": dict(engine="StateLedger", design_ref="DESIGN.md §3.2, §5 C10",
    text="The ghost carries an injective symbolic root (sequence of per-block change sets); on real traces TLC maintains the relation symbolic-root <-> real hash over ALL traces of a run and checks that it is functional (order / cache / reopen / revert-detour independence) and injective (sensitivity to any single changed value, balance, nonce, code, added or dropped key), using families of histories that realise the same or a minimally different change set.",
@@ -69,6 +69,14 @@ CHECKS = {
    text="Ordering.tla models what bitxhub adds on top of etcd/raft (lastExec, applied index, height->index map, durable applied key, batch sequence, snapshots, reports in any order, crash / restart / snapshot install) and solo; TLC checks the five C20 formulas exhaustively for 1, 2 and 3 replicas. SyncRange.tla transcribes calcRangeHeight and every model case is executed on the real function. Real solo.NewNode, etcdraft.NewNode x1 and x3 (in-memory peer manager with drop / duplicate / delay / partition, scripted executor and crash points) produce per-node delivery traces that TLC validates against the same formulas.",
    note="trusted: TLC, etcd/raft + WAL + leveldb, harness/cmd/orderadp; 3-node interleavings are sampled in real time; two known findings listed",
    technique="TLA+ spec + TLC exhaustive MC; real raft/solo node traces validated by TLC"),
+ "C09": dict(engine="ChainLedger", design_ref="DESIGN.md §3.3, §5 C09; spec/ChainLedger.README.md",
+   text="ChainLedger.tla models the block file and the chain index (by height, by hash, tx set, tx meta, chain meta) with Persist / Rollback / Reopen; TLC checks hash linkage, index agreement, meta agreement and nothing-above-after-rollback exhaustively within small bounds. The real ledger.Ledger is driven with synthetic blocks (empty, many and duplicate-looking transactions, interchain-heavy) and with chains produced by the real executor incl. its own rollback / re-execute path; after every Persist / Rollback / Reopen a full audit of every lookup for every height, block hash and tx hash ever stored is logged, header hash and both Merkle roots are recomputed independently from the stored data, and TLC validates the audits.",
+   note="trusted: TLC, harness/cmd/chainadp (audit decoding, independent hash recomputation)",
+   technique="TLA+ spec + TLC exhaustive MC; TLC trace validation of full audits of the real ledger"),
+ "C11": dict(engine="Persist", design_ref="DESIGN.md §3.4, §5 C11; spec/Persist.README.md",
+   text="Persist.tla has one action per durable write of a block commit (state batch, index batch, five block-file tables, journal pruning), Crash at any point, Recover, Continue; TLC proves the five C11 clauses for the intended recovery and enumerates ALL reachable crash states (144 over five height classes). Every crash state is rebuilt on a copy of a really committed ledger (dropped batches, truncated table files, plus a probe of the writes the real code actually issues), the real blockfile.NewBlockFile + ledger.New + continuation run in a child process, and TLC validates Crash -> Recover -> Continue traces.",
+   note="trusted: TLC, harness/cmd/crashadp; atomicity of one leveldb batch / one table append delegated to leveldb / blockfile; three known findings pinned by (height class, exact set of durable writes)",
+   technique="TLA+ spec + TLC exhaustive crash-state enumeration; every model crash state replayed on the real ledger; TLC trace validation"),
 }
 NOT_YET = "check not built yet (work in progress; see DESIGN.md build order)"
 
